@@ -398,6 +398,13 @@ func (env *Env) asSet(m Val) Val {
 	if m.SetElem != nil {
 		return m
 	}
+	if m.Ty == nil && strings.HasPrefix(m.Sort, "(Array ") {
+		if ks, vs := splitArraySort(m.Sort); vs == "Bool" {
+			if kt := goTypeOfSort(ks); kt != nil {
+				return Val{T: m.T, SetElem: kt}
+			}
+		}
+	}
 	if m.Ty != nil {
 		if mt, ok := m.Ty.Underlying().(*types.Map); ok {
 			return Val{T: sx("select", env.e.heapIn(env.st, env.e.sorts().MapDom(mt.Key())), m.T), SetElem: mt.Key()}
@@ -553,6 +560,21 @@ func (env *Env) callSpec(n *ECall) Val {
 		// the instance contains(a,b) ==> contains(lower(a),lower(b)) of the case-folding axiom, as a formula
 		a, b := arg(0), arg(1)
 		return Val{T: implies(sx("str.contains", a.T, b.T), sx("str.contains", sx("str.lower", a.T), sx("str.lower", b.T))), Ty: tBool}
+	case "bytesToString":
+		v := arg(0)
+		if !isByteSlice(v.Ty) {
+			fail("bytesToString needs a []byte")
+		}
+		row := sx("select", env.e.heapIn(env.st, s.ArrHeap(types.Typ[types.Uint8])), sx("sref", v.T))
+		return Val{T: env.e.W.UF("str.ofbytes", []string{"(Array Int Int)", "Int"}, "String", row, sx("slen", v.T)), Ty: tString}
+	case "fmtPiece":
+		// fmtPiece("%08.4f", x): how fmt renders x under that verb (uninterpreted; the same function Sprintf uses)
+		vb, ok := n.Args[0].(*EStr)
+		if !ok {
+			fail("fmtPiece(verb, x)")
+		}
+		x := arg(1)
+		return Val{T: env.e.W.UF("fmt."+mangle(vb.V)+"."+sortID(env.sortOf(x)), []string{env.sortOf(x)}, "String", x.T), Ty: tString}
 	case "trimOf":
 		a, b := arg(0), arg(1)
 		t := env.e.W.UF("str.trim", []string{"String", "String"}, "String", a.T, b.T)
